@@ -677,15 +677,17 @@ static const int leap_inst[][4] = {
 };
 #define NLEAPI	((int)(sizeof(leap_inst) / sizeof(*leap_inst)))
 
+static int dup_cal = CAL_YMD;
+
 static struct val_s*
 dup_operands(const int *rd, int ni, int *n)
 {
 	struct val_s *dv = calloc((size_t)(ni + NLEAPI), sizeof(*dv));
 	for (int k = 0; k < ni; k++) {
-		prep(dv + k, CAL_YMD, rd[k / 7], T7[k % 7]);
+		prep(dv + k, dup_cal, rd[k / 7], T7[k % 7]);
 	}
 	for (int k = 0; k < NLEAPI; k++) {
-		prep(dv + ni + k, CAL_YMD, rc_rd(leap_inst[k][0], leap_inst[k][1], leap_inst[k][2]), leap_inst[k][3]);
+		prep(dv + ni + k, dup_cal, rc_rd(leap_inst[k][0], leap_inst[k][1], leap_inst[k][2]), leap_inst[k][3]);
 	}
 	*n = ni + NLEAPI;
 	return dv;
@@ -742,6 +744,382 @@ do_dup_binding(int fi, const struct val_s *dv, int n, int ni)
 	unlink(fout);
 }
 
+/* ---- (e)..(h): further operand representations and format families ---- */
+/* the kind of duration ddiff selects for a format (determine_durtype), as class coordinate: the code path
+ * depends on it, not on the individual format */
+enum { DK_FIXED, DK_MONTHS, DK_YD, DK_YWD, DK_BIZ, NDK };
+static const char *const dk_name[NDK] = {"fixed-units", "months(ymd)", "years+days(yd)", "years+weeks(ywd)", "business-days"};
+static int mdk[NMASK];
+
+static int
+dur_kind(durfmt_t df)
+{
+	struct val_s x, y;
+	prep(&x, CAL_YMD, 146000, 0);
+	prep(&y, CAL_YMD, 147000, 0);
+	switch ((int)determine_durtype(x.v, y.v, df)) {
+	case DT_DURYMD: return DK_MONTHS;
+	case DT_DURYD: return DK_YD;
+	case DT_DURYWD: return DK_YWD;
+	case DT_DURBD: return DK_BIZ;
+	default: return DK_FIXED;
+	}
+}
+
+static int
+x_viol(struct ex_viol_s **slot, const char *key, double ord, const char *cas, const char *cmd, const char *detail)
+{
+	if (viol_fast(slot, ord) && !replay_mode) {
+		return 1;
+	}
+	ex_viol(key, ord, cas, cmd, "%s", detail);
+	for (int i = 0; i < ex.nviol; i++) {
+		if (!strcmp(ex.viol[i].key, key)) {
+			*slot = ex.viol + i;
+			break;
+		}
+	}
+	if (replay_mode) {
+		printf("  %s\n", detail);
+	}
+	return 1;
+}
+
+static double
+x_ord(const struct val_s *A, const struct val_s *B, int *neg)
+{
+	long long d = ((long long)B->rd - A->rd) * 86400LL + ((B->sec < 0 ? 0 : B->sec) - (A->sec < 0 ? 0 : A->sec));
+	*neg = d < 0;
+	return (double)(d < 0 ? -d : d) / 86400.0;
+}
+
+/* (e) epoch-held operands (@N): the printed duration is a function of the two instants, so it must be the text
+ * printed for the same instants given as civil date-times - both operands epoch-held, or either one.
+ * (f) the same with one date-only operand against an epoch-held date-time.
+ * which: 0 = epoch epoch, 1 = epoch civil, 2 = civil epoch, 3 = date epoch, 4 = epoch date */
+static const char *const repr_name[5] = {"epoch", "epoch~ymd", "ymd~epoch", "date~epoch", "epoch~date"};
+static struct ex_viol_s *rslot[NDK][5][2];
+#define UNPRINTABLE_RD	910674	/* the tools cannot convert day counts above this one (C01's finding) */
+
+static int
+do_repr(int mask, int which, int ia, int ib, const struct val_s *A, const struct val_s *B, const struct val_s *Ac, const struct val_s *Bc)
+{
+	/* A, B: the operands as given; Ac, Bc: the civil reference operands */
+	char t[128], tc[128], key[128], cas[64], cmd[256], det[512];
+	int neg;
+	double ord = x_ord(Ac, Bc, &neg);
+	EX_CTR(c_eval, "evaluations");
+	EX_CTR(c_trans, "transitions");
+	EX_CTR(c_n, "epoch_operand_cases");
+
+	ddiff_pipe(t, sizeof(t), fmts[mask][0][0], dfm[mask][0][0], A->v, B->v);
+	ddiff_pipe(tc, sizeof(tc), fmts[mask][0][0], dfm[mask][0][0], Ac->v, Bc->v);
+	*c_eval += 2;
+	++*c_trans;
+	++*c_n;
+	ex_outcome(ex_hash_mix(ex_hash(t, strlen(t)), (uint64_t)(9000 + mask)));
+	if (!strcmp(t, tc)) {
+		if (replay_mode) {
+			printf("  ddiff %s %s -f '%s' printed '%s', as for %s %s\n", A->text, B->text, fmts[mask][0][0], t, Ac->text, Bc->text);
+		}
+		return 0;
+	}
+	snprintf(key, sizeof(key), "repr dur=%s opnd=%s sign=%s", dk_name[mdk[mask]], repr_name[which], neg ? "-" : "+");
+	snprintf(cas, sizeof(cas), "x repr %d %d %d %d", mask, which, ia, ib);
+	snprintf(cmd, sizeof(cmd), "ddiff %s %s -f '%s'", A->text, B->text, fmts[mask][0][0]);
+	snprintf(det, sizeof(det), "ddiff %s %s -f '%s' printed '%s', but the same instants given as %s %s print '%s'",
+		 A->text, B->text, fmts[mask][0][0], t, Ac->text, Bc->text, tc);
+	return x_viol(&rslot[mdk[mask]][which][neg], key, ord, cas, cmd, det);
+}
+
+/* (g) business days (%db) together with time units, and -f bizsi, on date-times.
+ * sign rule always; for two Monday..Friday operands the components recombine by application:
+ * earlier (+) Nw Nb Nh Nm Ns through dadd must not pass the later value and be less than one
+ * finest unit short of it; business days < 5 under weeks, minutes < 60 under hours, seconds < 60
+ * under minutes (hours under business days are not bounded: a weekend may lie in the remainder) */
+struct biz_s {
+	char fmt[40];
+	int units;	/* bits: 1 w, 2 b, 4 H, 8 M, 16 S */
+	int bizsi;
+	int fam;
+	durfmt_t df;
+};
+static const char *const bizfam[5] = {"%db", "%db+time", "%w %db", "%w %db+time", "bizsi"};
+static struct biz_s bizf[40];
+static int nbiz;
+static struct ex_viol_s *bslot[5][4][2];
+
+static void
+build_biz(void)
+{
+	for (int w = 0; w < 2; w++) {
+		for (int t = 0; t < 8; t++) {
+			struct biz_s *b = bizf + nbiz++;
+			snprintf(b->fmt, sizeof(b->fmt), "%s%%db%s%s%s", w ? "%w " : "", (t & 4) ? " %H" : "", (t & 2) ? " %M" : "", (t & 1) ? " %S" : "");
+			b->units = (w ? 1 : 0) | 2 | ((t & 4) ? 4 : 0) | ((t & 2) ? 8 : 0) | ((t & 1) ? 16 : 0);
+			b->df = determine_durfmt(b->fmt);
+			b->fam = (w ? 2 : 0) + (t ? 1 : 0);
+		}
+	}
+	bizf[nbiz].fam = 4;
+	snprintf(bizf[nbiz].fmt, sizeof(bizf[nbiz].fmt), "bizsi");
+	bizf[nbiz].units = 2 | 4 | 8 | 16;
+	bizf[nbiz].bizsi = 1;
+	bizf[nbiz].df = determine_durfmt("bizsi");
+	nbiz++;
+}
+
+static int
+do_biz(int fi, int ia, int ib, const struct val_s *A, const struct val_s *B)
+{
+	static const char *const suf[5] = {"w", "b", "h", "m", "s"};
+	static const long long usec[5] = {604800, 86400, 3600, 60, 1};
+	static const char *const kn[4] = {"biz-output", "biz-minus", "biz-range", "biz-apply"};
+	const struct biz_s *b = bizf + fi;
+	char t[128], key[128], cas[64], cmd[256], det[640], why[320];
+	long long v[8], c[5] = {0, 0, 0, 0, 0};
+	int neg, lead = 0, minuses = 0, n, nz = 0, kind = -1, ncomp = 0, fin = 1;
+	double ord = x_ord(A, B, &neg);
+	const struct val_s *e = neg ? B : A, *l = neg ? A : B;
+	EX_CTR(c_eval, "evaluations");
+	EX_CTR(c_trans, "transitions");
+	EX_CTR(c_n, "bizday_time_cases");
+
+	for (int k = 0; k < 5; k++) {
+		if (b->units & (1 << k)) {
+			ncomp++;
+			fin = k;
+		}
+	}
+	n = ddiff_pipe(t, sizeof(t), b->fmt, b->df, A->v, B->v);
+	++*c_eval;
+	++*c_trans;
+	++*c_n;
+	ex_outcome(ex_hash_mix(ex_hash(t, strlen(t)), (uint64_t)(11000 + fi)));
+	why[0] = '\0';
+	if (n >= 0) {
+		/* digits, leading minus, all minuses; 'b', 'T' and ':' are separators here */
+		lead = t[0] == '-';
+		n = 0;
+		for (const char *q = t; *q; ) {
+			if (*q >= '0' && *q <= '9') {
+				long long x = 0;
+				while (*q >= '0' && *q <= '9') {
+					x = x * 10 + (*q++ - '0');
+				}
+				if (n < 8) {
+					v[n] = x;
+				}
+				n++;
+			} else {
+				minuses += *q++ == '-';
+			}
+		}
+	}
+	if (n != ncomp) {
+		kind = 0;
+		snprintf(why, sizeof(why), "not one number per requested unit");
+	} else {
+		for (int k = 0, i = 0; k < 5; k++) {
+			if (b->units & (1 << k)) {
+				c[k] = v[i++];
+				nz |= c[k] != 0;
+			}
+		}
+		if (nz ? (lead != neg || minuses != lead) : minuses > lead) {
+			kind = 1;
+			snprintf(why, sizeof(why), "exactly one leading '-' iff the second operand is earlier");
+		} else if (((b->units & 1) && c[1] >= 5) || ((b->units & 4) && (b->units & 8) && c[3] >= 60) || ((b->units & 8) && (b->units & 16) && c[4] >= 60) ||
+			   ((b->units & 4) && !(b->units & 8) && (b->units & 16) && c[4] >= 3600)) {
+			kind = 2;
+			snprintf(why, sizeof(why), "a refined unit is outside its natural range (business days < 5 under weeks, minutes < 60 under hours, seconds < 60 under minutes)");
+		} else if (!(rc_get(A->rd)->isbd && rc_get(B->rd)->isbd)) {
+			EX_CTR(c_we, "skipped:business days with time units from or to a weekend day (only sign and shape judged)");
+			++*c_we;
+		} else {
+			char units[128] = "", got[64], g1[64];
+			struct dt_dt_s res, res1;
+			long long ir, ir1 = -1, il = (long long)l->rd * 86400LL + l->sec;
+			for (int k = 0; k < 5; k++) {
+				if (b->units & (1 << k)) {
+					snprintf(units + strlen(units), sizeof(units) - strlen(units), "%s%lld%s", *units ? " " : "", c[k], suf[k]);
+				}
+			}
+			++*c_eval;
+			if (dadd_apply(e->v, units, &res) == 0) {
+				dadd_print(got, sizeof(got), res);
+				ir = text_instant(CAL_YMD, got, 1);
+				if (fin == 1) {
+					if (dadd_apply(res, "1b", &res1) == 0) {
+						dadd_print(g1, sizeof(g1), res1);
+						ir1 = text_instant(CAL_YMD, g1, 1);
+					}
+				} else {
+					ir1 = ir + usec[fin];
+				}
+				if (ir < 0 || ir > il || (ir1 >= 0 && ir1 <= il)) {
+					kind = 3;
+					snprintf(why, sizeof(why), "dadd %s %s gives '%s'; it must not pass the later value '%s' and be less than 1%s short of it",
+						 e->text, units, got, l->text, suf[fin]);
+				}
+			}
+		}
+	}
+	if (kind < 0) {
+		if (replay_mode) {
+			printf("  ddiff %s %s -f '%s' printed '%s' (holds)\n", A->text, B->text, b->fmt, t);
+		}
+		return 0;
+	}
+	snprintf(key, sizeof(key), "%s fmt=%s opnd=dt sign=%s", kn[kind], bizfam[b->fam], neg ? "-" : "+");
+	snprintf(cas, sizeof(cas), "x biz %d 0 %d %d", fi, ia, ib);
+	snprintf(cmd, sizeof(cmd), "ddiff %s %s -f '%s'", A->text, B->text, b->fmt);
+	snprintf(det, sizeof(det), "ddiff %s %s -f '%s' printed '%s': %s", A->text, B->text, b->fmt, t, why);
+	return x_viol(&bslot[b->fam][kind][neg], key, ord, cas, cmd, det);
+}
+
+/* (h) %rS inside formats with months, years or business days: the %rS slot must be the %S slot of the
+ * same format plus the leap seconds between the operands, as it is in the fixed-unit formats; the leap
+ * seconds are taken from the tool's own -f %rS and -f %S (whose agreement with the table is C14's) */
+struct rs_s {
+	char fmt[48], base[48];
+	int n, spos, dk;
+	durfmt_t df, dfb;
+};
+static struct rs_s rsf[64];
+static int nrs;
+static struct ex_viol_s *sslot[NDK][2];
+static durfmt_t df_rS, df_S;
+
+static void
+add_rs(const char *base)
+{
+	struct rs_s *r = rsf + nrs++;
+	const char *q = strstr(base, "%S");
+	int n = 0;
+	snprintf(r->base, sizeof(r->base), "%s", base);
+	snprintf(r->fmt, sizeof(r->fmt), "%.*s%%rS%s", (int)(q - base), base, q + 2);
+	for (const char *x = base; *x; x++) {
+		if (*x == '%') {
+			if (x == q) {
+				r->spos = n;
+			}
+			n++;
+		}
+	}
+	r->n = n;
+	r->df = determine_durfmt(r->fmt);
+	r->dfb = determine_durfmt(r->base);
+	r->dk = dur_kind(r->dfb);
+}
+
+static void
+build_rs(void)
+{
+	for (int m = 1; m < NMASK; m++) {
+		if ((m & B_S) && (m & (B_Y | B_MO))) {
+			add_rs(fmts[m][0][0]);
+		}
+	}
+	add_rs("%db %S");
+	add_rs("%w %db %S");
+	add_rs("%db %H %M %S");
+	df_rS = determine_durfmt("%rS");
+	df_S = determine_durfmt("%S");
+}
+
+static int
+do_rs(int fi, int ia, int ib, const struct val_s *A, const struct val_s *B, long long corr)
+{
+	const struct rs_s *r = rsf + fi;
+	char t[128], tb[128], key[128], cas[64], cmd[256], det[512];
+	long long v[8], vb[8];
+	int l, lb, n, nb, bad = 0, neg;
+	double ord = x_ord(A, B, &neg);
+	EX_CTR(c_eval, "evaluations");
+	EX_CTR(c_trans, "transitions");
+	EX_CTR(c_n, "rS_in_calendar_format_cases");
+
+	ddiff_pipe(t, sizeof(t), r->fmt, r->df, A->v, B->v);
+	ddiff_pipe(tb, sizeof(tb), r->base, r->dfb, A->v, B->v);
+	*c_eval += 2;
+	++*c_trans;
+	++*c_n;
+	n = dup_numbers(t, v, 8, &l);
+	nb = dup_numbers(tb, vb, 8, &lb);
+	if (n != r->n || nb != r->n) {
+		bad = 1;
+	} else {
+		for (int k = 0; k < n; k++) {
+			bad |= v[k] != vb[k] + (k == r->spos ? corr : 0);
+		}
+	}
+	if (!bad) {
+		if (replay_mode) {
+			printf("  ddiff %s %s -f '%s' printed '%s', -f '%s' printed '%s', leap seconds between the operands: %lld (agree)\n",
+			       A->text, B->text, r->fmt, t, r->base, tb, corr);
+		}
+		return 0;
+	}
+	snprintf(key, sizeof(key), "rS dur=%s opnd=dt sign=%s", dk_name[r->dk], neg ? "-" : "+");
+	snprintf(cas, sizeof(cas), "x rs %d 0 %d %d", fi, ia, ib);
+	snprintf(cmd, sizeof(cmd), "ddiff %s %s -f '%s'", A->text, B->text, r->fmt);
+	snprintf(det, sizeof(det), "ddiff %s %s -f '%s' printed '%s'; -f '%s' prints '%s' and -f %%rS / -f %%S differ by %lld leap second(s), which must show in the %%rS slot",
+		 A->text, B->text, r->fmt, t, r->base, tb, corr);
+	return x_viol(&sslot[r->dk][neg], key, ord, cas, cmd, det);
+}
+
+/* leap seconds between two operands according to the tool's own single-specifier formats */
+static long long
+tool_corr(const struct val_s *A, const struct val_s *B)
+{
+	char a[64], b[64];
+	long long va[2], vb[2];
+	int l;
+	ddiff_pipe(a, sizeof(a), "%rS", df_rS, A->v, B->v);
+	ddiff_pipe(b, sizeof(b), "%S", df_S, A->v, B->v);
+	if (dup_numbers(a, va, 2, &l) != 1 || dup_numbers(b, vb, 2, &l) != 1) {
+		return 0;
+	}
+	return va[0] - vb[0];
+}
+
+/* all of (e)..(h) for one ordered pair of the operand list */
+static void
+do_extra(int i, int j, int ni, const struct val_s *dv, const struct val_s *dve)
+{
+	if (i < ni && j < ni) {
+		if (dv[i].rd < UNPRINTABLE_RD && dv[j].rd < UNPRINTABLE_RD) {
+			for (int m = 1; m < NMASK; m++) {
+				do_repr(m, 0, i, j, dve + i, dve + j, dv + i, dv + j);
+				do_repr(m, 1, i, j, dve + i, dv + j, dv + i, dv + j);
+				do_repr(m, 2, i, j, dv + i, dve + j, dv + i, dv + j);
+			}
+			if (i % 7 == 0) {
+				/* (f) the day of instant i as a date-only operand */
+				struct val_s D;
+				prep(&D, CAL_YMD, dv[i].rd, -1);
+				for (int m = 1; m < NMASK; m++) {
+					do_repr(m, 3, i, j, &D, dve + j, &D, dv + j);
+					do_repr(m, 4, j, i, dve + j, &D, dv + j, &D);
+				}
+			}
+		} else {
+			EX_CTR(c_unpr, "skipped:epoch-held operand of a day the tools cannot convert (after 4094-05-04: C01's finding)");
+			++*c_unpr;
+		}
+		for (int fi = 0; fi < nbiz; fi++) {
+			do_biz(fi, i, j, dv + i, dv + j);
+		}
+	}
+	{
+		long long corr = tool_corr(dv + i, dv + j);
+		for (int fi = 0; fi < nrs; fi++) {
+			do_rs(fi, i, j, dv + i, dv + j, corr);
+		}
+	}
+}
+
 int
 main(int argc, char *argv[])
 {
@@ -776,11 +1154,47 @@ main(int argc, char *argv[])
 	nd = bdays(rd);
 	ni = nd * 7;
 	build_dups();
+	for (int m = 1; m < NMASK; m++) {
+		mdk[m] = dur_kind(dfm[m][0][0]);
+	}
+	build_biz();
+	build_rs();
 
 	if (ex.cas) {
 		int mask, dt, ra, sa, rb, sb, bad;
 		struct val_s A, B, Aw, Bw;
 		replay_mode = 1;
+		if (!strncmp(ex.cas, "x ", 2)) {
+			char part[16];
+			int fi, w, ia, ib, n;
+			struct val_s *dv, *dve, D;
+			if (sscanf(ex.cas + 2, "%15s %d %d %d %d", part, &fi, &w, &ia, &ib) != 5) {
+				return ex_replay_result(1, "bad case '%s'", ex.cas);
+			}
+			dv = dup_operands(rd, ni, &n);
+			dup_cal = CAL_EPOCH;
+			dve = dup_operands(rd, ni, &n);
+			dup_cal = CAL_YMD;
+			if (ia < 0 || ib < 0 || ia >= n || ib >= n || fi < 0) {
+				return ex_replay_result(1, "bad case '%s'", ex.cas);
+			}
+			if (!strcmp(part, "repr") && fi >= 1 && fi < NMASK && w >= 0 && w < 5) {
+				switch (w) {
+				case 0: bad = do_repr(fi, w, ia, ib, dve + ia, dve + ib, dv + ia, dv + ib); break;
+				case 1: bad = do_repr(fi, w, ia, ib, dve + ia, dv + ib, dv + ia, dv + ib); break;
+				case 2: bad = do_repr(fi, w, ia, ib, dv + ia, dve + ib, dv + ia, dv + ib); break;
+				case 3: prep(&D, CAL_YMD, dv[ia].rd, -1); bad = do_repr(fi, w, ia, ib, &D, dve + ib, &D, dv + ib); break;
+				default: prep(&D, CAL_YMD, dv[ib].rd, -1); bad = do_repr(fi, w, ia, ib, dve + ia, &D, dv + ia, &D); break;
+				}
+			} else if (!strcmp(part, "biz") && fi < nbiz) {
+				bad = do_biz(fi, ia, ib, dv + ia, dv + ib);
+			} else if (!strcmp(part, "rs") && fi < nrs) {
+				bad = do_rs(fi, ia, ib, dv + ia, dv + ib, tool_corr(dv + ia, dv + ib));
+			} else {
+				return ex_replay_result(1, "bad case '%s'", ex.cas);
+			}
+			return ex_replay_result(bad != 0, "%s %s %s", part, dv[ia].text, dv[ib].text);
+		}
 		if (!strncmp(ex.cas, "dup ", 4)) {
 			int fi, ia, ib, n;
 			struct val_s *dv = dup_operands(rd, ni, &n);
@@ -844,14 +1258,24 @@ main(int argc, char *argv[])
 		"sign: exactly one '-', in front, iff the second operand is earlier (not judged on all-zero output); for date-time pairs the ascending and a "
 		"rotated order and the %%0 and '%% ' paddings must print the same numbers. non-trivial = the time-of-day difference (for dates: the day-of-month difference) "
 		"runs against the day difference (borrow); repeated specifiers: every occurrence of a specifier prints the number the single occurrence prints "
-		"in the duplicate-free format (same durfmt flags, hence the same duration), same sign; %%S and %%rS in one format print the same numbers in either order",
+		"in the duplicate-free format (same durfmt flags, hence the same duration), same sign; %%S and %%rS in one format print the same numbers in either order; "
+		"epoch-held operands (@N): the output is a function of the two instants, so it must be the text printed for the same instants given as civil date-times "
+		"(both operands epoch-held, either one, and a date-only operand against an epoch-held one; days after 4094-05-04, which the tools cannot convert, skipped); "
+		"%%db with time units and -f bizsi on date-times: sign rule always, and for two Monday..Friday operands recombination by application (earlier + Nw Nb Nh Nm Ns "
+		"through dadd must not pass the later value and be less than one finest unit short), business days < 5 under weeks, minutes/seconds < 60; "
+		"%%rS inside month/year/business-day formats: its slot = the %%S slot of the same format + the leap seconds between the operands (taken from the tool's own -f %%rS minus -f %%S). "
+		"Reading kept for %%Y with time units but without %%m %%w %%d (audit F1: months silently dropped): info/format-ddiff.texi lists only %%m %%w %%d as refinements of %%Y "
+		"and %%H %%M %%S only as refinements of %%d, and says a chain without %%d is 'not possible', so such subsets stay shape-and-sign only",
 		nfix, ncal, ninex);
 	ex_meta("bound", "(a) %d boundary days x 7 times of day = %d date-times, all ordered pairs x 127 subsets x (1 + up to 8 order/padding variants); "
 		"(b) dates: every day of %s x partner at distance -%d..%d x 127 subsets; operands in y-m-d; "
 		"(c) binding: ddiff binary, one process per subset, %d date-times on stdin; "
 		"(d) repeated specifiers: %d date-times (the same plus %d instants on both sides of the leap seconds of 1972, 1998, 2008, 2012, 2016), all ordered "
 		"pairs x %d formats in which one of %%Y %%m %%w %%d %%H %%M %%S %%rS %%T %%rT occurs two or three times (adjacent, with another specifier in between, "
-		"with different paddings, %%S/%%rS in both orders), each against its duplicate-free format; binding: one ddiff process per such format",
+		"with different paddings, %%S/%%rS in both orders), each against its duplicate-free format; binding: one ddiff process per such format; "
+		"(e) the 420 date-times epoch-held (@N) x 127 subsets: both operands, epoch vs civil, civil vs epoch; (f) each of the 60 days as date-only operand against the 420 epoch-held date-times, "
+		"both orders x 127 subsets; (g) the 420 date-times, all ordered pairs x 17 formats with %%db (with and without %%w, all subsets of %%H %%M %%S, and bizsi); "
+		"(h) the 432 date-times of (d), all ordered pairs x 51 formats with %%rS next to months, years or business days",
 		nd, ni, ex.thorough ? "1997-2004 and 1897-1904" : "1997-2004", K, K, ni, ni + NLEAPI, NLEAPI, ndup);
 	ex_meta("binding", "ddiff REF -f SUBSET < date-times, byte-compared with the included pipeline");
 
@@ -922,19 +1346,23 @@ main(int argc, char *argv[])
 	/* (d) repeated specifiers */
 	{
 		int n = 0;
-		struct val_s *dv = NULL;
+		struct val_s *dv = NULL, *dve = NULL;
 		for (int i = 0; i < ni + NLEAPI && !ex_expired(); i++, slice++) {
 			if (!ex_mine((uint64_t)slice)) {
 				continue;
 			}
 			if (dv == NULL) {
 				dv = dup_operands(rd, ni, &n);
+				dup_cal = CAL_EPOCH;
+				dve = dup_operands(rd, ni, &n);
+				dup_cal = CAL_YMD;
 			}
 			++*c_states;
 			for (int j = 0; j < n; j++) {
 				for (int fi = 0; fi < ndup; fi++) {
 					do_dup(fi, i, j, dv + i, dv + j);
 				}
+				do_extra(i, j, ni, dv, dve);
 			}
 			++*c_traces;
 			if (ex_want_sample()) {
